@@ -347,3 +347,97 @@ func verifC05sg() { // four constructors; a scope created after the parent's gra
 }
 
 func init() { verifEntries["verifC05sg"] = verifC05sg }
+
+// ---- profiles added after the fifth round of seeded changes -----------------------------------
+
+func verifC03f() { // group members provided As several interfaces: a consumer of one interface runs the feeder
+	verifRunProfile(&vProfile{name: "C03f", clauses: vC03,
+		maxScopes: 1, nRegs: 2, maxParams: 0, maxResults: 1, pForms: 2, rForms: 1, names: 1, groups: true, as: true,
+		faults: 1, nInvokes: 2, invParams: 1})
+}
+
+func verifC05sh() { // exported constructors with value-group parameters (their group node lives in every graph)
+	verifRunProfile(&vProfile{name: "C05sh", clauses: vC05s,
+		maxScopes: 2, nRegs: 2, maxParams: 1, maxResults: 1, pForms: 2, rForms: 1, names: 1, groups: true, export: true, objOnly: true,
+		faults: 1, nInvokes: 1, invParams: 1})
+}
+
+func verifC06f() { // candidates with two results (the same group key twice) next to accepted feeders
+	verifC06run(&vProfile{name: "C06f", clauses: []string{"C06."},
+		maxScopes: 1, nRegs: 1, maxParams: 1, maxResults: 2, pForms: 2, rForms: 2, names: 1, groups: true, objOnly: true,
+		regResults: []int{1, 2}, faults: 1, nInvokes: 1, invParams: 1}, false)
+}
+
+func verifC10g() { // feeders with dependencies of their own that a descendant scope shadows or extends
+	verifRunProfile(&vProfile{name: "C10g", clauses: append([]string{"C01.arg"}, vC10...),
+		maxScopes: 2, nRegs: 3, maxParams: 1, maxResults: 1, pForms: 2, rForms: 2, names: 1, groups: true, objOnly: true, scopesFirst: true,
+		regParams: []int{1, 0, 0}, regScopes: []int{0, 0, 1}, faults: 1, nInvokes: 1, invParams: 1})
+}
+
+func verifC12h() { // a group decorated above, resolved from a leaf, then decorated in between, resolved again
+	verifRunProfile(&vProfile{name: "C12h", clauses: vC12,
+		maxScopes: 3, nRegs: 1, maxParams: 0, maxResults: 1, pForms: 2, rForms: 2, names: 1, groups: true, decorators: 2, scopesFirst: true,
+		regKinds: []int{vDecor, vDecor}, faults: 1, nInvokes: 2, invParams: 1, lateRegs: 1, objOnly: true})
+}
+
+func verifC15f() { // failing constructors: the same functions run in every encoding
+	verifC15run(&vProfile{name: "C15f", clauses: []string{"C15."},
+		maxScopes: 1, nRegs: 2, maxParams: 0, maxResults: 1, pForms: 1, rForms: 1, names: 1, altUniform: true,
+		faults: 2, nInvokes: 1, invParams: 2})
+}
+
+func verifC17e() { // variadic functions under DryRun
+	verifC17run(&vProfile{name: "C17e", clauses: []string{"C17."},
+		maxScopes: 1, nRegs: 2, maxParams: 1, maxResults: 1, pForms: 1, rForms: 1, names: 1, decorators: 1, variadic: true,
+		faults: 1, nInvokes: 1, invParams: 1})
+}
+
+func verifC01i() { // a value first built through a descendant, then the descendant provides the key itself
+	verifRunProfile(&vProfile{name: "C01i", clauses: vC01,
+		maxScopes: 2, nRegs: 1, maxParams: 0, maxResults: 1, pForms: 1, rForms: 1, names: 1, export: true,
+		faults: 1, nInvokes: 3, invParams: 1, lateRegs: 1, lateAfter: 1})
+}
+
+func verifC02h() { // duplicates through Export: two instances of one key must never be observable
+	verifRunProfile(&vProfile{name: "C02h", clauses: append([]string{"C01.arg"}, vC02...),
+		maxScopes: 2, nRegs: 1, maxParams: 0, maxResults: 2, pForms: 1, rForms: 1, names: 1, export: true, scopesFirst: true,
+		regResults: []int{1, 2}, faults: 1, nInvokes: 3, invParams: 1, lateRegs: 1})
+}
+
+func verifC08d() { // value groups with flatten members across scopes under the visibility clauses
+	verifRunProfile(&vProfile{name: "C08d", clauses: append([]string{"C10.all", "C10.count", "C10.foreign"}, vC08...),
+		maxScopes: 2, nRegs: 2, maxParams: 0, maxResults: 1, pForms: 2, rForms: 2, names: 1, groups: true, flatten: true,
+		faults: 1, nInvokes: 1, invParams: 1})
+}
+
+func verifC13f() { // a failing dependency of a decorator below an optional consumer, under the C13 clauses
+	verifRunProfile(&vProfile{name: "C13f", clauses: vC13,
+		maxScopes: 1, nRegs: 4, maxParams: 1, maxResults: 1, pForms: 2, rForms: 1, names: 1, optional: true, decorators: 1, decor2: true,
+		regKinds: []int{vCtor, vCtor, vDecor, vCtor}, faults: 2, nInvokes: 1, invParams: 1, distinct: true, objOnly: true, noMissing: true,
+		allAccepted: true, strictDecor: true})
+}
+
+func init() {
+	for n, f := range map[string]func(){
+		"verifC03f": verifC03f, "verifC05sh": verifC05sh, "verifC06f": verifC06f, "verifC10g": verifC10g, "verifC12h": verifC12h,
+		"verifC15f": verifC15f, "verifC17e": verifC17e, "verifC01i": verifC01i, "verifC02h": verifC02h, "verifC08d": verifC08d, "verifC13f": verifC13f,
+	} {
+		verifEntries[n] = f
+	}
+}
+
+func verifC11g() { // a value decorator with a soft group parameter above a scope that decorates that group
+	verifRunProfile(&vProfile{name: "C11g", clauses: append([]string{"C01.arg"}, vC11...),
+		maxScopes: 2, nRegs: 4, maxParams: 0, maxResults: 1, pForms: 2, rForms: 2, names: 1, groups: true, soft: true, decorators: 2, decor2: true, decorSoft: true,
+		regKinds: []int{vCtor, vCtor, vDecor, vDecor}, regScopes: []int{0, 0, 0, 1}, scopesFirst: true, faults: 1, nInvokes: 1, invParams: 1, objOnly: true})
+}
+
+func init() { verifEntries["verifC11g"] = verifC11g }
+
+func verifC03g() { // a value group decorated at two levels: an outer decorator the inner one does not consume is not run
+	verifRunProfile(&vProfile{name: "C03g", clauses: vC03,
+		maxScopes: 2, nRegs: 3, maxParams: 0, maxResults: 1, pForms: 2, rForms: 2, names: 1, groups: true, soft: true, decorators: 2, decor2: true,
+		regKinds: []int{vCtor, vDecor, vDecor}, regScopes: []int{0, 0, 1}, scopesFirst: true, faults: 1, nInvokes: 1, invParams: 1, objOnly: true})
+}
+
+func init() { verifEntries["verifC03g"] = verifC03g }
